@@ -559,12 +559,12 @@ Proof.
   destruct Hrb as [Hrb He'].
   assert (H1 : in_range 1) by (split; [discriminate|reflexivity]).
   assert (HX : (1 * a ^ e) mod W = (a ^ e) mod W) by (rewrite Z.mul_1_l; reflexivity).
-  assert (L0 : limb e 0 = e mod 2 ^ 64) by (unfold limb, U64; change (2 ^ (64 * 0)) with 1; rewrite Z.div_1_r; reflexivity).
-  assert (L1 : limb e 1 = (e / 2 ^ 64) mod 2 ^ 64) by reflexivity.
+  assert (L0 : limb e 0 = e mod 2 ^ 64) by (limbs; reflexivity).
+  assert (L1 : limb e 1 = (e / 2 ^ 64) mod 2 ^ 64) by (limbs; reflexivity).
   assert (L2 : limb e 2 = (e / 2 ^ 64 / 2 ^ 64) mod 2 ^ 64).
-  { unfold limb, U64. rewrite Z.div_div by (reflexivity || discriminate). reflexivity. }
+  { limbs. rewrite Z.div_div by (reflexivity || discriminate). reflexivity. }
   assert (L3 : limb e 3 = (e / 2 ^ 64 / 2 ^ 64 / 2 ^ 64) mod 2 ^ 64).
-  { unfold limb, U64. rewrite !Z.div_div by (reflexivity || discriminate). reflexivity. }
+  { limbs. rewrite !Z.div_div by (reflexivity || discriminate). reflexivity. }
   rewrite L0, L1, L2, L3.
   destruct (exp_word (1, a, rb) (e mod 2 ^ 64)) as [[v1 b1] r1] eqn:E1.
   destruct (exp_word_step _ _ _ _ _ _ _ _ Hrb He' H1 Ha HX E1) as (Hr1 & He1 & Hv1 & Hb1 & HX1).
